@@ -314,6 +314,32 @@ pub fn uci_stream(args: &[String]) {
                 k += 1 + rng.below(2) as usize;
             }
         }
+        if sidx % 160 == 5 {
+            // a very long game in ONE position line (thousands of bytes: past any line buffer of 4 KiB, 8 KiB, 16 KiB …), sent as a
+            // whole, then one ply longer, then with the last token corrupted: the session position must be the end of the whole list
+            let plies = [805usize, 812, 830, 1640, 1650, 3300, 6600][(sidx / 160 % 7) as usize];
+            let start = rng.below(2) == 0;
+            let head = if start { "position startpos".to_string() } else { format!("position fen {}", super::walk::SEEDS[0]) };
+            let mut b = Board::from_fen(super::walk::SEEDS[0]);
+            let mut moves: Vec<String> = vec![];
+            while moves.len() < plies {
+                let legal = b.get_legal_moves();
+                if legal.is_empty() {
+                    break;
+                }
+                // mostly quiet piece moves, so that the game goes on
+                let quiet: Vec<&Ply> = legal.iter().filter(|m| m.captured_piece.is_none() && !matches!(m.piece, Kind::Pawn(_))).collect();
+                let m = if !quiet.is_empty() && rng.below(8) != 0 { *quiet[rng.below(quiet.len() as u64) as usize] } else { legal[rng.below(legal.len() as u64) as usize] };
+                moves.push(m.to_notation());
+                b.make_move(m);
+            }
+            if moves.len() > 3 {
+                lines.push(format!("{head} moves {}", moves[..moves.len() - 1].join(" ")));
+                lines.push(format!("{head} moves {}", moves.join(" ")));
+                lines.push(format!("{head} moves {} e2e9", moves.join(" ")));
+                lines.push(format!("{head} moves {}", moves[..moves.len() / 2].join(" ")));
+            }
+        }
         for _ in 0..n {
             let l = match rng.below(10) {
                 0 | 1 | 2 => position_line(&mut rng, false),
